@@ -59,15 +59,15 @@ func (m rpcMethod) path() string { return "/" + m.Service + "/" + m.Name }
 
 // clientSpec is a spec-level description of a client request
 type clientSpec struct {
-	Form     int
-	Codec    string // proto | json
-	Comp     string // "" | gzip | identity
-	Method   rpcMethod
-	Msgs     [][]byte // encoded (uncompressed) messages in Codec
-	Flags    []bool   // per message: compressed bit (only meaningful with Comp set, enveloped forms)
-	Extra    [][2]string
-	RestPath string // for formREST: request target
-	RestBody []byte
+	Form      int
+	Codec     string // proto | json
+	Comp      string // "" | gzip | identity
+	Method    rpcMethod
+	Msgs      [][]byte // encoded (uncompressed) messages in Codec
+	Flags     []bool   // per message: compressed bit (only meaningful with Comp set, enveloped forms)
+	Extra     [][2]string
+	RestPath  string // for formREST: request target
+	RestBody  []byte
 	NoVersion bool
 }
 
